@@ -17,6 +17,7 @@ char *__real_strdup(const char *);
 void __real__mpt_abort(const char *, const char *, const char *, int);
 void __real__ZdlPv(void *);
 void __real__ZdlPvm(void *, size_t);
+void __real__ZdaPv(void *);
 }
 
 namespace sim {
@@ -132,6 +133,12 @@ void __wrap_free(void *p) {
 	if (p && !g.reent) led_del(p);
 	__real_free(p);
 }
+// operator new: objects the C++ layer creates inside a SUT call belong to the ledger as well (no fault injection here: the library is not written for bad_alloc).
+// Only the library's own C++ objects are routed here (bin/mptbuild.py renames their references to operator new with objcopy);
+// the harness allocates with the ordinary operator new, also when it runs inside a SUT call.
+void *__verif_lib_Znwm(size_t n) { void *p = ::operator new(n); if (p && g.in_sut && !g.reent) led_add(p, n); return p; }
+void *__verif_lib_Znam(size_t n) { void *p = ::operator new[](n); if (p && g.in_sut && !g.reent) led_add(p, n); return p; }
+void __wrap__ZdaPv(void *p) { if (p && !g.reent) led_del(p); __real__ZdaPv(p); }
 // operator delete: the C++ layer releases some malloc()ed objects with `delete this`
 void __wrap__ZdlPv(void *p) { if (p && !g.reent) led_del(p); __real__ZdlPv(p); }
 void __wrap__ZdlPvm(void *p, size_t n) { if (p && !g.reent) led_del(p); __real__ZdlPvm(p, n); }
